@@ -4,6 +4,7 @@ import (
 	"fmt"
 	"go/token"
 	"go/types"
+	"strings"
 
 	"golang.org/x/tools/go/ssa"
 )
@@ -171,7 +172,7 @@ func c13R1(c *Ctx, a *c13A) {
 			for _, in := range instrsWhere(wm, isCallTo(a.sSetKey, a.sSetScoped)) {
 				rv := callArg(in, 2)
 				c.c13Guarded(R, wm, "store write only for a response classified as a non-failure", []ssa.Instruction{in},
-					OnCmp("ClassifyResponse(same res) != TypeServerFailure", func(e *Expr) bool {
+					c13OnCmp("ClassifyResponse(same res) != TypeServerFailure", func(e *Expr) bool {
 						e = strip(e)
 						if e == nil || e.K != EExtract || e.Idx != 0 || e.X == nil || e.X.K != ECall || !sameFunc(e.X.Fn, a.classify) || len(e.X.Args) < 1 {
 							return false
@@ -181,29 +182,27 @@ func c13R1(c *Ctx, a *c13A) {
 			}
 		}
 	}
-	// (b) cacheableResolutionFailure truth table
-	if fd, pk := c.P.FuncDecl(cp + ".cacheableResolutionFailure"); fd != nil {
-		expr := c13SingleReturnExpr(fd)
-		atoms := c13NilCmpAtoms(
-			map[*types.Func]string{a.effErr: "noCtxErr", a.workErr: "noWorkErr", a.reqLocal: "notRequestLocal"},
-			map[*types.Func]string{a.bestEffort: "bestEffort"})
-		c.TruthTableCheck(R, R+"|cacheableResolutionFailure|truth table", expr, pk, atoms,
-			[]string{"noCtxErr", "bestEffort", "noWorkErr", "notRequestLocal"},
-			func(v map[string]bool) bool {
-				return v["noCtxErr"] && !v["bestEffort"] && v["noWorkErr"] && v["notRequestLocal"]
-			}, "noCtxErr && !bestEffort && noWorkErr && notRequestLocal")
-	} else {
-		c.unresolved(R, cp+".cacheableResolutionFailure", "declaration not found")
-	}
+	// (b) cacheableResolutionFailure: decided on the evaluated CFG (any guard
+	// shape: && chain, early returns, named locals, extracted bool helpers)
 	if cf := c.fn(R, cp+".cacheableResolutionFailure"); cf != nil {
-		for _, in := range instrsWhere(cf, isCallTo(a.reqLocal)) {
-			e := strip(Desc(callArg(in, 1)))
-			key := R + "|cacheableResolutionFailure|request-local mark looked up for the response being judged"
-			if e != nil && e.K == EParam && e.Idx == 1 {
-				c.ok(R, key, instrPos(in), "RequestLocalFailureForResponse(ctx, res)")
-			} else {
-				c.violation(R, key, instrPos(in), "the request-local mark is looked up for a different message")
+		judged := func(e *Expr) bool {
+			e = strip(e)
+			if e == nil || e.K != ECall || !sameFunc(e.Fn, a.reqLocal) || len(e.Args) != 2 {
+				return false
 			}
+			m := strip(e.Args[1])
+			return m != nil && m.K == EParam && m.Idx == 1
+		}
+		atoms := []c09Atom{
+			c09TruthyAtom("request context error", CallTo(a.effErr)),
+			c09TruthyAtom("best-effort recursion work", CallTo(a.bestEffort)),
+			c09TruthyAtom("recursion-work enforcement error", CallTo(a.workErr)),
+			c09TruthyAtom("request-local mark on the judged response", judged),
+		}
+		for _, at := range atoms {
+			name := at.Name
+			c.c09RequireWhen(R, R+"|cacheableResolutionFailure|admits only without "+name, cf, 0, atoms, true,
+				func(v map[string]bool) bool { return !v[name] }, "no "+name)
 		}
 	}
 	// (c) resolver zone failures
@@ -212,7 +211,7 @@ func c13R1(c *Ctx, a *c13A) {
 		isCause := func(e *Expr) bool { e = strip(e); return e != nil && e.K == EParam && e.Name == "cause" }
 		isZone := func(e *Expr) bool { e = strip(e); return e != nil && e.K == EParam && e.Name == "zone" }
 		bars := []Barrier{
-			OnCmp("zone!=\"\"", isZone, token.EQL, func(e *Expr) bool {
+			c13OnCmp("zone!=\"\"", isZone, token.EQL, func(e *Expr) bool {
 				e = strip(e)
 				return e != nil && e.K == EConst && e.Val != nil && e.Val.ExactString() == `""`
 			}, false),
@@ -263,7 +262,7 @@ func c13ConstIs(v interface{ ExactString() string }) Pat {
 func c13R2(c *Ctx, a *c13A) {
 	const R = "C13-R2"
 	const cp = "middleware/cache"
-	c.Doc(R, "ancestor walks move on label boundaries only: in walkFailureZones the visited zone is CanonicalName(name), the root, or zone[dns.NextLabel(zone,0):]; in walkWireSuffixes the offset starts at 0 and advances by 1 + int(name[off]) (the length octet) behind c<=63 and in-bounds checks")
+	c.Doc(R, "ancestor walks move on label boundaries only: in walkFailureZones the visited zone is CanonicalName(name), the root, or zone[dns.NextLabel(zone,0):]; in walkWireSuffixes the offset starts at 0 and advances by 1 + int(name[off]) (the length octet) behind c<=63 and in-bounds checks; exact ECS audience: every Store.RecordFailure call made by a cache.ResponseWriter method passes that writer's clientScope (never a constant or another prefix), and Cache.ServeDNS hands the writer the very scope value it used for LookupFailure/FailureRetryKey — a failure produced for one audience is recorded, looked up and reset under that audience only")
 	if fn := c.fn(R, cp+".walkFailureZones"); fn != nil {
 		nextLabel := c.fobj(R, "github.com/miekg/dns.NextLabel")
 		canon := c.fobj(R, "github.com/miekg/dns.CanonicalName")
@@ -343,7 +342,7 @@ func c13R2(c *Ctx, a *c13A) {
 							okStep = true
 							// behind c > 63 = false
 							lnv := ln
-							if ug, tr := c.unguarded(b, []Barrier{OnCmp("len>63", func(x *Expr) bool { return x.V == lnv }, token.GTR, IsConstInt(63), false)}, fn); ug {
+							if ug, tr := c.unguarded(b, []Barrier{c13OnCmp("len>63", func(x *Expr) bool { return x.V == lnv }, token.GTR, IsConstInt(63), false)}, fn); ug {
 								bad = "offset advances without the length-octet ≤ 63 check; path " + tr
 							}
 						}
@@ -363,7 +362,58 @@ func c13R2(c *Ctx, a *c13A) {
 			c.unresolved(R, "walkWireSuffixes|visit", "no visit(name[off:]) call found")
 		}
 	}
-	c.Floor(R, 2)
+	// ECS audience: the write-back files a failure under the audience the request was looked up with
+	scopeF := c.field(R, cp+".ResponseWriter.clientScope")
+	if scopeF != nil {
+		n := 0
+		for _, st := range c.CallSites(a.sRecordFailure) {
+			top := TopLevel(st.Fn)
+			if !methodOnPkg(funcObjOf(top), "/middleware/cache", "ResponseWriter") {
+				continue
+			}
+			n++
+			recv := ""
+			if len(top.Params) > 0 {
+				recv = top.Params[0].Name()
+			}
+			c.OriginCheck(R, R+"|"+fnKey(top)+"|RecordFailure audience", st.Instr, "RecordFailure scope", callArg(st.Instr, 2), nil, func(e *Expr) bool {
+				e = strip(e)
+				if e == nil || e.K != EField || e.Var != scopeF || e.X == nil {
+					return false
+				}
+				b := strip(e.X)
+				return b != nil && b.K == EParam && b.Name == recv
+			})
+		}
+		if n == 0 {
+			c.unresolved(R, "ResponseWriter RecordFailure sites", "none found (rule would pass vacuously)")
+		}
+		if sd := c.fn(R, cp+".(*Cache).ServeDNS"); sd != nil {
+			handed := map[string]bool{}
+			for _, b := range sd.Blocks {
+				for _, in := range b.Instrs {
+					if _, val, ok := c13FieldStore(in, scopeF); ok {
+						if e := Desc(val); !IsAnyConst(e) {
+							handed[e.String()] = true
+						}
+					}
+				}
+			}
+			if len(handed) == 0 {
+				c.unresolved(R, fnKey(sd)+"|writer scope", "ServeDNS never hands a client scope to the response writer")
+			}
+			for _, in := range instrsWhere(sd, isCallTo(a.sLookupFailure, a.sRetryKey)) {
+				key := R + "|" + fnKey(sd) + "|lookup audience = write-back audience"
+				got := Desc(callArg(in, 2)).String()
+				if handed[got] {
+					c.ok(R, key, instrPos(in), "failure lookup / retry key use the scope handed to the response writer")
+				} else {
+					c.violation(R, key, instrPos(in), "failure state is looked up under an audience other than the one the write-back records under: "+trunc(got, 120))
+				}
+			}
+		}
+	}
+	c.Floor(R, 2+2+4)
 }
 
 // ---------------------------------------------------------------------------
@@ -388,18 +438,51 @@ func c13R3(c *Ctx, a *c13A) {
 		return
 	}
 	recKey := fnKey(recFn)
-	c.WhoMay(R, "store failureEntry.streak", c.StoreSites(streakF), map[string]string{recKey: "the one state transition"})
-	c.WhoMay(R, "store failureEntry.retryAfter", c.StoreSites(retryF), map[string]string{recKey: "the one state transition"})
+	// stores are allowed in record and in same-package helpers reachable only from record
+	memo := map[*ssa.Function]bool{}
+	whoStores := func(what string, fv *types.Var) {
+		sites := c.StoreSites(fv)
+		if len(sites) == 0 {
+			c.unresolved(R, what, "no store found (rule would pass vacuously)")
+		}
+		for _, s := range sites {
+			top := TopLevel(s.Fn)
+			key := fmt.Sprintf("%s|%s|%s", R, what, fnKey(top))
+			if top == recFn || c.c13OnlyReachedFrom(top, recFn, memo, 0) {
+				c.ok(R, key, instrPos(s.Instr), what+": inside FailureCache.record (or a helper only it calls) — the one state transition")
+			} else {
+				c.violation(R, key, instrPos(s.Instr), what+": written outside FailureCache.record, bypassing the backoff envelope")
+			}
+		}
+	}
+	whoStores("store failureEntry.streak", streakF)
+	whoStores("store failureEntry.retryAfter", retryF)
 	c.WhoMay(R, "store FailureCache.maxTTL", c.StoreSites(maxF), map[string]string{fnKey(newFn): "validated constructor"})
 	c.WhoMay(R, "store FailureCache.initialTTL", c.StoreSites(initF), map[string]string{fnKey(newFn): "validated constructor"})
 	for _, s := range c.StoreSites(streakF) {
-		if TopLevel(s.Fn) != recFn {
-			continue
+		// value followed through same-package helpers (parameters substituted):
+		// 1, the previous streak + 1, or the previous streak unchanged (saturation)
+		key := R + "|" + recKey + "|streak value"
+		var bad []string
+		leaves := c09LeavesThroughHelpers(s.Val, fnPkg(recFn))
+		for _, l := range leaves {
+			e := strip(l)
+			switch {
+			case IsConstInt(1)(l):
+			case FieldIs(streakF)(l):
+			case e != nil && e.K == EBin && e.Op == token.ADD && FieldIs(streakF)(e.X) && IsConstInt(1)(e.Y):
+			case e != nil && e.K == EBin && e.Op == token.ADD && FieldIs(streakF)(e.Y) && IsConstInt(1)(e.X):
+			default:
+				bad = append(bad, trunc(l.String(), 120))
+			}
 		}
-		c.OriginCheck(R, R+"|"+recKey+"|streak value", s.Instr, "streak", s.Val, nil, IsConstInt(1), func(e *Expr) bool {
-			e = strip(e)
-			return e != nil && e.K == EBin && e.Op == token.ADD && FieldIs(streakF)(e.X) && IsConstInt(1)(e.Y)
-		})
+		if len(leaves) == 0 {
+			c.undecided(R, key, instrPos(s.Instr), "streak: no origin could be determined")
+		} else if len(bad) > 0 {
+			c.violation(R, key, instrPos(s.Instr), "streak takes a value other than 1, streak or streak+1 (the interval would more than double): "+strings.Join(bad, " ; "))
+		} else {
+			c.ok(R, key, instrPos(s.Instr), "streak ∈ {1, streak, streak+1}")
+		}
 	}
 	isNow := func(e *Expr) bool {
 		e = strip(e)
@@ -430,7 +513,16 @@ func c13R3(c *Ctx, a *c13A) {
 			}
 		case CallTo(a.backoff)(e.Args[1]):
 			be := strip(e.Args[1])
-			if len(be.Args) == 2 && FieldIs(streakF)(be.Args[1]) && be.Args[1].X != nil && base != nil && be.Args[1].X.V == base {
+			fromEntry := len(be.Args) == 2 && FieldIs(streakF)(be.Args[1]) && be.Args[1].X != nil && base != nil && be.Args[1].X.V == base
+			if !fromEntry && len(be.Args) == 2 && be.Args[1].V != nil {
+				// or the very value stored into this entry's streak
+				for _, t := range c.StoreSites(streakF) {
+					if b2, v2, ok := c13FieldStore(t.Instr, streakF); ok && b2 == base && v2 == be.Args[1].V {
+						fromEntry = true
+					}
+				}
+			}
+			if fromEntry {
 				c.ok(R, key, instrPos(s.Instr), "renewal: retryAfter = now.Add(backoff(this entry's streak))")
 			} else {
 				c.violation(R, key, instrPos(s.Instr), "backoff is not computed from the streak of the entry being written: "+trunc(be.String(), 160))
@@ -440,14 +532,15 @@ func c13R3(c *Ctx, a *c13A) {
 		}
 	}
 	// backoff
-	for _, in := range returnsWhere(boFn, 0, nil) {
-		rv := in.(*ssa.Return).Results[0]
+	for _, rs := range c09ReturnSites(boFn, 0) {
+		rv := rs.Val
+		in := rs.At
 		key := R + "|" + fnKey(boFn) + "|return"
 		if FieldIs(maxF)(Desc(rv)) {
 			c.ok(R, key, instrPos(in), "returns c.maxTTL")
 			continue
 		}
-		clamp := OnCmp("ttl>c.maxTTL", func(e *Expr) bool { return e.V == rv }, token.GTR, FieldIs(maxF), false)
+		clamp := c13OnCmp("ttl>c.maxTTL", func(e *Expr) bool { return e.V == rv }, token.GTR, FieldIs(maxF), false)
 		if ug, tr := c.unguarded(in, []Barrier{clamp}, boFn); ug {
 			c.violation(R, key, instrPos(in), "backoff returns a value that was not clamped against c.maxTTL; path "+tr)
 			continue
@@ -477,15 +570,15 @@ func c13R3(c *Ctx, a *c13A) {
 	// NewFailureCache
 	fiveMin := int64(5 * 60 * 1_000_000_000)
 	var okRets []ssa.Instruction
-	for _, in := range returnsWhere(newFn, 0, nil) {
-		if !IsNilConst(Desc(in.(*ssa.Return).Results[0])) {
-			okRets = append(okRets, in)
+	for _, rs := range c09ReturnSites(newFn, 0) {
+		if !IsNilConst(Desc(rs.Val)) {
+			okRets = append(okRets, rs.At)
 		}
 	}
 	atMost5 := func(e *Expr) bool { v, ok := constInt(e); return ok && v <= fiveMin && v > 0 }
-	c.c13Guarded(R, newFn, "constructs only with MaxTTL ≤ ceiling ≤ 5 min", okRets, OnCmp("cfg.MaxTTL>ceiling", FieldIs(cfgMax), token.GTR, atMost5, false))
-	c.c13Guarded(R, newFn, "constructs only with MaxTTL ≥ InitialTTL", okRets, OnCmp("cfg.MaxTTL<cfg.InitialTTL", FieldIs(cfgMax), token.LSS, FieldIs(cfgInit), false))
-	c.c13Guarded(R, newFn, "constructs only with InitialTTL ≥ 1s", okRets, OnCmp("cfg.InitialTTL<1s", FieldIs(cfgInit), token.LSS, func(e *Expr) bool { v, ok := constInt(e); return ok && v >= 1_000_000_000 }, false))
+	c.c13Guarded(R, newFn, "constructs only with MaxTTL ≤ ceiling ≤ 5 min", okRets, c13OnCmp("cfg.MaxTTL>ceiling", FieldIs(cfgMax), token.GTR, atMost5, false))
+	c.c13Guarded(R, newFn, "constructs only with MaxTTL ≥ InitialTTL", okRets, c13OnCmp("cfg.MaxTTL<cfg.InitialTTL", FieldIs(cfgMax), token.LSS, FieldIs(cfgInit), false))
+	c.c13Guarded(R, newFn, "constructs only with InitialTTL ≥ 1s", okRets, c13OnCmp("cfg.InitialTTL<1s", FieldIs(cfgInit), token.LSS, func(e *Expr) bool { v, ok := constInt(e); return ok && v >= 1_000_000_000 }, false))
 	for _, s := range c.StoreSites(maxF) {
 		c.OriginCheck(R, R+"|NewFailureCache|maxTTL value", s.Instr, "FailureCache.maxTTL", s.Val, nil, FieldIs(cfgMax))
 	}
@@ -499,7 +592,7 @@ func c13R3(c *Ctx, a *c13A) {
 	}
 	c.ConstBound(R, cp+".DefaultFailureMaxTTL", token.LEQ, fiveMin, "hard ceiling 5 minutes")
 	c.ConstBound(R, "config.DefaultRecursionFirewallFailureCacheMaxTTL", token.LEQ, fiveMin, "fallback configuration stays under the ceiling")
-	c.Floor(R, 23)
+	c.Floor(R, 18) // every sub-check reports its own vacuity; the count of streak stores depends on how record is factored
 }
 
 func c13FieldStore(in ssa.Instruction, fv *types.Var) (base, val ssa.Value, ok bool) {
@@ -551,7 +644,7 @@ func c13R4(c *Ctx, a *c13A) {
 			return e != nil && e.K == EUn && e.Op == token.NOT && CallTo(enabled)(e.X)
 		})
 	}
-	c.Floor(R, 23)
+	c.Floor(R, 18) // every sub-check reports its own vacuity; the count of streak stores depends on how record is factored
 }
 
 // ---------------------------------------------------------------------------
@@ -701,7 +794,7 @@ func c13R7(c *Ctx, a *c13A) {
 		}
 	} else {
 		c.c13Guarded(R, fn, "Regroup behind the regroup bound", regs,
-			OnCmp("regroups>=K(≤1)", func(e *Expr) bool { return e.V == counter }, token.GEQ, atMost1, false))
+			c13OnCmp("regroups>=K(≤1)", func(e *Expr) bool { return e.V == counter }, token.GEQ, atMost1, false))
 		web := c13PhiWeb(counter)
 		consts, bad := 0, ""
 		for _, t := range c13PhiTerminals(counter) {
